@@ -14,7 +14,7 @@ RULE = ("Hypothesis-generated circuits over H,X,Y,Z,S,T,RX,RY,RZ,PHASE,CNOT,CX,C
 ASSUMPTIONS = ["numpy linear algebra", "reference gate table in vlib/refsim.py (self-tested against scipy expm)",
                "only cirq and sympy backends are installed; qulacs/qiskit/qdk/stim clauses are not exercised",
                "sampled mode is a statistical check at 6.5 sigma with pinned numpy seed"]
-SHARDS = {"quick": 4, "thorough": 16}
+SHARDS = {"quick": 8, "thorough": 16}
 
 
 def selftest():
@@ -222,3 +222,89 @@ def sympy_exact(ctx):
 
     ctx.search("sympy_refuse", S.circuits(max_width=3, max_gates=3, names=["XX", "CSWAP", "H", "RX"], min_gates=1)
                .filter(lambda c: any(g["n"] in ("XX", "CSWAP") for g in c["gates"])), body_refuse, n=max(4, ctx.share(0.2)))
+
+
+# ------------------------------------------------------------------------------------------------------------------
+# Exhaustive single-gate sweeps: every gate name x every placement (1..2 controls) on 3 qubits x a few angles, applied
+# to a generic complex product state so that relative phases on control qubits are visible in the statevector.
+
+PREFIX = [{"n": "RY", "t": [0], "c": None, "p": 0.7}, {"n": "RZ", "t": [0], "c": None, "p": 0.4},
+          {"n": "RX", "t": [1], "c": None, "p": 1.1}, {"n": "RY", "t": [2], "c": None, "p": 2.3},
+          {"n": "PHASE", "t": [2], "c": None, "p": -0.9}]
+SWEEP_ANGLES = [0.37, -2.9, 3.141592653589793, 5.1, 9.0]
+
+
+def gate_sweep_cases(names):
+    import itertools
+    out = []
+    for nm in names:
+        ntg = 2 if nm in ("SWAP", "XX", "CSWAP") else 1
+        is_ctrl = nm in S.CTRL_NOPAR or nm in S.CTRL_PAR or nm == "CSWAP"
+        ncs = [0] if not is_ctrl else [1, 2]
+        for nc in ncs:
+            if ntg + nc > 3:
+                continue
+            for qs in itertools.permutations(range(3), ntg + nc):
+                for p in (SWEEP_ANGLES if nm in S.PARAM else [None]):
+                    out.append({"gates": PREFIX + [{"n": nm, "t": list(qs[:ntg]), "c": list(qs[ntg:]) or None, "p": p}], "nq": 3})
+    return out
+
+
+@part("gate_sweep", quick=1, thorough=1)
+def gate_sweep(ctx):
+    from tangelo.linq import get_backend
+
+    def make_body(backend):
+        def body(case):
+            circ = S.build_circuit(case)
+            ref = R.run(case["gates"], 3)
+            be = get_backend(backend)
+            freqs, sv = be.simulate(circ, return_statevector=True)
+            if backend == "sympy":
+                sv = np.array(sv.evalf().tolist(), dtype=complex).reshape(-1)
+                freqs = {k: complex(v).real for k, v in freqs.items()}
+            sv = np.asarray(sv).reshape(-1)
+            got = sv if be.backend_info()["statevector_order"] == "lsq_first" else R.reverse_order(sv)
+            d = float(np.max(np.abs(got - ref)))
+            if d > 1e-7:
+                g = case["gates"][-1]
+                raise Fail(f"{backend}: gate {g} on generic state: statevector differs from reference by {d}",
+                           sig=f"{backend}:gate-sweep:{g['n']}:{len(g['c'] or [])}ctrl")
+            check_freqs_exact(freqs, R.probs(ref), 3, f"{backend}:gate-sweep")
+            return True, (case["gates"][-1]["n"],)
+        return body
+
+    ctx.sweep("cirq_gates", gate_sweep_cases(S.ALL_GATES), make_body("cirq"))
+    # sympy is slow (0.1-0.5 s per simulation): quick tier sweeps every gate/placement at two angles, thorough at all
+    sy = gate_sweep_cases(SYMPY_NAMES)
+    if ctx.tier == "quick":
+        sy = [c for c in sy if c["gates"][-1]["p"] in (None, -2.9, 3.141592653589793)]
+    ctx.sweep("sympy_gates", sy, make_body("sympy"))
+
+
+# ------------------------------------------------------------------------------------------------------------------
+# Shot sampling is drawn in chunks of 10**7: shot numbers at and around the chunk boundary (the code imposes it).
+
+@part("shot_chunks", quick=1, thorough=1)
+def shot_chunks(ctx):
+    from tangelo.linq import get_backend
+    shots = [10**7 - 1, 10**7, 10**7 + 1] if ctx.tier == "quick" else [10**7 - 1, 10**7, 10**7 + 1, 2 * 10**7, 3 * 10**7 + 5]
+    cases = [{"gates": [{"n": "RY", "t": [0], "c": None, "p": 1.0}], "nq": 1, "shots": s} for s in shots]
+
+    def body(case):
+        N = case["shots"]
+        circ = S.build_circuit(case)
+        p = R.probs(R.run(case["gates"], 1))
+        be = get_backend("cirq", n_shots=N)
+        ctx.np_seed(case)
+        freqs, _ = be.simulate(circ)
+        tot = sum(round(f * N) for f in freqs.values())
+        if tot != N:
+            raise Fail(f"n_shots={N}: returned counts sum to {tot}", sig="cirq:sampled-total:chunk-boundary")
+        for i in range(2):
+            f = freqs.get(str(i), 0.0)
+            if abs(f - p[i]) > 6.5 * np.sqrt(p[i] * (1 - p[i]) / N) + 1.0 / N:
+                raise Fail(f"n_shots={N}: frequency {f} vs p={p[i]}", sig="cirq:sampled-dist:chunk-boundary")
+        return True, (f"shots={N}",)
+
+    ctx.sweep("shot_chunks", cases, body)
